@@ -97,6 +97,20 @@ impl Run {
 
     /// Write the evidence file; returns the process exit code.
     pub fn finish(mut self, evaluations: u64, distinct_nontrivial: u64, floor: u64, rule: &str, samples: Vec<J>) -> i32 {
+        self.finish_inner(evaluations, distinct_nontrivial, floor, rule, samples)
+    }
+
+    /// Ends the run at once (evidence written, exit code as for `finish`): used when a part of
+    /// the store under test hangs - threads parked or spinning inside it cannot be taken back,
+    /// so nothing run after that point in this process would be trustworthy.
+    pub fn abort_now(&mut self, evaluations: u64, rule: &str) -> ! {
+        let code = self.finish_inner(evaluations, 0, 0, rule, vec![]);
+        // no violation recorded (the hang was inconclusive for this property): the monitor has
+        // decided nothing
+        std::process::exit(if code == 0 { 2 } else { code })
+    }
+
+    fn finish_inner(&mut self, evaluations: u64, distinct_nontrivial: u64, floor: u64, rule: &str, samples: Vec<J>) -> i32 {
         let wall = self.start.elapsed().as_secs_f64();
         self.coverage.insert("evaluations".into(), json!(evaluations));
         self.coverage.insert("distinct_nontrivial".into(), json!(distinct_nontrivial));
